@@ -1065,6 +1065,36 @@ def suite_ser(g, scale):
                     g.emit("eq64 %s %s" % (z, y))
                     g.emit("wf64 %s" % z)
         g.count("ser64:made-by-aggregates")
+    # 1h. a zero-copy view over ONE bucket of eight chunks: a range removal that trims its first and last chunk and drops 1, 2 or 3 whole
+    #     chunks in between (the inner bookkeeping arrays slide down), then an edit of every surviving chunk — the caller's bytes stay intact
+    for hi in (0, 0x12345678):
+        for dropped in (1, 2, 3):
+            for shape in ("arr", "run", "bmp"):
+                x = g.fresh("m")
+                g.emit("new64 %s" % x)
+                for k in range(3, 11):
+                    b0 = (hi << 32) + k * 65536
+                    if shape == "arr":
+                        g.emit("addmany64 %s %d %d %d %d" % (x, b0 + 5, b0 + 9, b0 + 300, b0 + 40000))
+                    elif shape == "run":
+                        g.emit("addr64 %s %d %d" % (x, b0 + 100, b0 + 400))
+                    else:
+                        g.emit("addstride64 %s %d 2 5000" % (x, b0 + 1))
+                if shape == "run":
+                    g.emit("opt64 %s" % x)
+                g.emit("ser64 %s" % x)
+                u = g.fresh("u")
+                g.emit("rd64 %s fromunsafe %s" % (u, x))
+                base = hi << 32
+                g.emit("remr64 %s %d %d" % (u, base + 4 * 65536 + 200, base + (5 + dropped) * 65536 + 1100))
+                g.emit("bufchk64 %s" % u)
+                for k in range(3, 11):
+                    b0 = base + k * 65536
+                    g.emit("crem64 %s %d" % (u, b0 + 300)); g.emit("cadd64 %s %d" % (u, b0 + 301)); g.emit("addr64 %s %d %d" % (u, b0 + 149, b0 + 152))
+                    g.emit("bufchk64 %s" % u)
+                g.emit("wf64 %s" % u)
+                g.emit("dig64 %s" % x)
+        g.count("ser64:view-range-removal-slides-tail")
     # 2. small streams: spec reading of the bytes, truncation sweep, header corruption
     for _ in range(int(10 * scale)):
         x = g.fresh("s")
